@@ -332,7 +332,10 @@ def check_C07(F, tier, t0):
         'Engine S, inductively over all shapes of the node and of the two recursive results: model(a) implies a pointwise; a leaf is returned unchanged; the False result is '
         'returned only when the models of both children are False; every other result conjoins exactly one literal of the node\'s variable with the recursive model that was '
         'tested to be non-False (cube shape, support within support(a)); infer(a,v) answers (is_leaf(ff), ff is True) for ff = implies(a, var v). CLI: with -m the result is '
-        'replaced by model(result) after evaluation and before every printer. Not decided: "a non-False reduced diagram is satisfiable" (canonicity, M4).',
+        'replaced by model(result) after evaluation and before every printer. Because `rsbdd -m -t` prints the model of *the formula* as a table row, the check also '
+        'includes the shared links of that chain: the language front end (token tables, operator tables, tokenizer regex), the evaluator and the operations it '
+        'dispatches to (the proofs of C01/C03/C04/C05), the free-variable analysis behind the header, and the table printer rules X1/X2/X3. Not decided: "a non-False '
+        'reduced diagram is satisfiable" (canonicity, M4).',
         TRUSTED, ['Bryant canonicity (M4) for "False iff unsatisfiable"'], './check C07')
 
 def check_C08(F, tier, t0):
@@ -395,7 +398,9 @@ def check_C10(F, tier, t0):
         'exactly at the True leaf; index domains of every column access (to_free_index yields a position in free_vars, which is sorted by id; every index stays below the '
         'length of the sequence it indexes); one parser call fed by all three input channels; model/retain applied before every printer; the header is free_vars, filled from the '
         'textbook free-variable analysis (engine S on var_is_free); filter spellings disjoint and on '
-        'the right variant. With "rows are the root-to-leaf paths of an ordered diagram" (C02) these give disjointness and coverage. Not decided: text layout, clap/argfile/wild.',
+        'the right variant; --filter reaches the printer unchanged and is handed down the recursion unchanged (value provenance). The rows are those of *the formula*: the '
+        'language front end, the evaluator and its operations (C01/C03/C04/C05 proofs), model (-m) and retain (-c) are included as links of the chain. '
+        'With "rows are the root-to-leaf paths of an ordered diagram" (C02) these give disjointness and coverage. Not decided: text layout, clap/argfile/wild.',
         TRUSTED, [], './check C10')
 
 def check_C11(F, tier, t0):
@@ -411,8 +416,9 @@ def check_C11(F, tier, t0):
     return finish(R, 'other', tier, t0,
         'Clauses: counter invariant of tokenize (after every registration the fresh-id counter exceeds every registered id, names are looked up before a fresh id is taken); '
         'column look-up by id in the id-sorted free_vars (no position/id confusion); the -o file flows through tokenize + extract_vars into the parser\'s ordering argument; '
-        '-r prints vars sorted by id; NamedSymbol orders by id. The semantic core - that meaning does not depend on the order - is carried by C01-C05, C07, C20, whose '
-        'obligations are discharged for an arbitrary total order on an arbitrary symbol type. Not decided: that -r output re-tokenises to the same names (regex engine).',
+        '-r prints vars sorted by id; NamedSymbol orders by id. The semantic core - that meaning does not depend on the order - is that every operation the evaluator '
+        'dispatches to is proved for an arbitrary total order on an arbitrary symbol type: those proofs (evaluator, C03/C04/C05 operations, fp) are run here too. '
+        'Not decided: that -r output re-tokenises to the same names (regex engine).',
         TRUSTED, [], './check C11')
 
 def check_C12(F, tier, t0):
@@ -493,7 +499,9 @@ def check_C12(F, tier, t0):
         'function reachable from tokenize, ParsedFormula::new/eval and the binary\'s main (callbacks of dot/fmt traits included); each site must be discharged by a named '
         'rule - constant operand, engine S proving the panicking arm dead in all abstract worlds, dominance by an emptiness test, caller-side shape refinement, absence of a '
         'producer, counters bounded by a collection, index-domain typing, engine G for RefCell - or by a one-site entry of the site table with its reason; anything else is a '
-        'violation, so a new unwrap/index/unchecked arithmetic is reported by construction. Not decided: stack exhaustion (the property bounds nesting), allocation failure, '
+        'violation, so a new unwrap/index/unchecked arithmetic is reported by construction. Reasons that name a guard are decided, not trusted: the run-time statistics '
+        '(which index the middle of the sample vector) must sit under a condition implying at least one sample (R9, value provenance), and the `is not a free variable` panic '
+        'is dead only because the free-variable analysis is proved here as well. A site inside a new helper is judged as a site of the function it was split out of. Not decided: stack exhaustion (the property bounds nesting), allocation failure, '
         'panics inside dependencies beyond their documented contract, write errors on a closed stdout, non-convergent fixed points.',
         TRUSTED + ['site table in engine_p.SITE_TABLE (%d named sites with reasons)' % len(SITE_TABLE)], ['API callers pass ordering ids below usize::MAX'], './check C12')
 
@@ -535,7 +543,8 @@ def check_C13(F, tier, t0):
         'a look-up hit is returned as is, nothing removes or replaces entries, the table cell never escapes; diagram nodes are allocated only in new/mk_choice/the From '
         'conversion, are never uniquely borrowed, are Freeze and contain no interior mutability at any depth; every BDDEnv operation builds its result only from arguments, '
         'their sub-nodes, leaves and other operations (no fresh allocation); nothing reachable from an operation or the evaluator reads hidden mutable state; no operation '
-        're-enters the table while it is mutably borrowed. These are the static content of "history never changes results, nodes are shared and stay valid". '
+        're-enters the table while it is mutably borrowed; a formula built with new_with_env keeps the environment it was given (an Rc handle, never a copy: E8); '
+        'Eq / Ord / Hash of the symbol type read the same key (the table is keyed by the diagram: H). These are the static content of "history never changes results, nodes are shared and stay valid". '
         'Not decided: pointer-identity consequences inside the dot crate.',
         TRUSTED, ['std HashMap / Rc / RefCell contracts'], './check C13')
 
@@ -551,8 +560,10 @@ def check_C14(F, tier, t0):
     return finish(R, 'other', tier, t0,
         'Sibling-agreement clauses: T/F edge flags and labels follow the true/false branch; leaf ids and labels sit on the matching variants; for every filter x child kind an '
         'edge into a leaf is emitted iff that leaf is declared, and a leaf is declared iff filter=Any or filter=leaf; for each of the 12 syntax-node kinds the node list visits '
-        'exactly the recursive fields for which edges are emitted, edge labels of one kind are distinct, and every kind has its own label arm. '
-        'Not decided: DOT escaping/rendering (dot crate), itertools::unique.',
+        'exactly the recursive fields for which edges are emitted, edge labels of one kind are distinct, and every kind has its own label arm; every label is built as plain text '
+        'that the dot writer escapes (LabelText::label / LabelStr, never escaped / html); the node and edge lists are de-duplicated (a shared node is exported once); child lists '
+        'are walked element by element; --filter reaches BDDGraph::new unchanged (value provenance). '
+        'Not decided: the escaping and rendering done inside the dot crate, the implementation of itertools::unique.',
         TRUSTED, [], './check C14')
 
 def check_C15(F, tier, t0):
